@@ -115,6 +115,7 @@ type Clause struct {
 	Loop  int    // loop ordinal for invariant/decreases
 	Call  string // callee label for `at call` ("*" = every call)
 	Except []string // with Call == "*": callees not covered
+	After  string   // only call sites dominated by an earlier call to this callee
 	Props []string
 	Text  string
 	Label string
@@ -973,6 +974,15 @@ func (p *parser) parseClauses(fc *FuncContract) error {
 					return err
 				}
 			}
+			after := ""
+			if p.isID("after") { // only call sites dominated by an earlier call to this callee
+				p.next()
+				var err error
+				after, err = p.parseFuncLabel()
+				if err != nil {
+					return err
+				}
+			}
 			if !p.isID("assert") {
 				return p.errf("expected assert")
 			}
@@ -983,7 +993,7 @@ func (p *parser) parseClauses(fc *FuncContract) error {
 			if err != nil {
 				return err
 			}
-			fc.Clauses = append(fc.Clauses, &Clause{Kind: "assert", Call: label, Except: except, E: e, Props: props, Label: lab, Text: p.textSince(start)})
+			fc.Clauses = append(fc.Clauses, &Clause{Kind: "assert", Call: label, Except: except, After: after, E: e, Props: props, Label: lab, Text: p.textSince(start)})
 		default:
 			return nil // next declaration
 		}
